@@ -204,6 +204,8 @@ func vegasIntFn(spec string) func(int) int {
 	case scan(spec, "log:%d", &k):
 		lg := functions.Log10RootFunction(0)
 		return func(l int) int { return k * lg(l) }
+	case scan(spec, "div:%d", &k):
+		return func(l int) int { return l / k } // "a k-th of the limit": 0 for small limits
 	}
 	panic("bad vegas int fn " + spec)
 }
